@@ -317,4 +317,27 @@ CHECKS = {
                 "range-depends-on-outer-iteration": ("TestLoad", 0.15), "cross-level-variable-reference": ("TestLoad", 0.2),
                 "nested-iterator": ("TestLoadInProcess", 0.2), "injected-error-reached": ("TestLoadInProcess", 0.08)},
     ),
+    "C17": dict(
+        pkg="./props/c17", bins=["./cmd/execworker"], level="fault_enumeration",
+        rule=("rapid-generated plans executed against the real executor task code (executable.NewTask with recording status / device-event / "
+              "message senders, as executor/handlers.go wires them), one worker process per plan. Task kind basic / hook / controllable "
+              "(direct); child behaviour: lives until told, or exits by itself after 50-1500 ms with code 0/1/3, ignores TERM/INT, forks 0-2 "
+              "children into its process group (which may ignore signals too); for controllable tasks a simulated OCC control plugin: port "
+              "opens after 0-1.5 s, ready after 0-1.5 s or starts in ERROR/DONE, reports its pid or not, each transition ok / refused / to "
+              "ERROR / hanging with 0-1.5 s delay, exits 0-2.5 s after DONE or never; request script: walks over the task state machine "
+              "(CONFIGURE, START, STOP, RESET, repeated starts), hook triggers, a kill at a drawn instant (0-1.2 s after the previous "
+              "request; requests after a terminal status are not delivered, as in the executor). Oracle over the recorded history: (1) at "
+              "most one terminal status and nothing after it; (2) a task alive and ready when killed is not reported TASK_FAILED, a basic "
+              "task stopped while its child runs is not reported FAILED in BASIC_TASK_TERMINATED; (3) 0.5 s after a kill (or a STOP of a "
+              "started basic task) returned, no live process is left in the task's process group (/proc scan by pgid; judged when the child "
+              "was surely alive at the request); (4) the worker neither panics (stack in executor code = crash) nor does a kill/stop/trigger "
+              "request fail to return within 8 s (25 s for controllable tasks). TestKillExitRace repeats the schedule-dependent shape "
+              "'exits non-zero the moment EXIT arrives'. Non-trivial: the plan contains a kill or a STOP."),
+        assumptions=["survivors are not judged for hook tasks (a DESTROY hook may legitimately run after the kill) nor when the child had already exited by itself before the request (the anchored mechanism kills the group 'unless it already exited')",
+                     "a device that never answers a transition makes that request hang; only kill/stop/trigger must return",
+                     "kill requests that reach a controllable task before TASK_RUNNING are excluded while KF-C17-kill-during-startup is open (canary cases run them)"],
+        quick=[R("^(TestFixed|TestCanary.*)$", 1, 1, 900), R("^TestKillExitRace$", 1, 1, 900), R("^TestTaskLife$", 6, 13, 900, shrinktime="60s")],
+        thorough=[R("^(TestFixed|TestCanary.*)$", 1, 1, 900), R("^TestKillExitRace$", 1, 2, 1800), R("^TestTaskLife$", 150, 13, 3400, shrinktime="180s")],
+        floors={"kind:direct": ("TestTaskLife", 0.25), "kind:basic": ("TestTaskLife", 0.25), "kill": ("TestTaskLife", 0.5), "child-forks": ("TestTaskLife", 0.25), "child-ignores-signals": ("TestTaskLife", 0.1)},
+    ),
 }
